@@ -173,11 +173,19 @@ var apis = []api{
 	}},
 	{name: "Analyzer.Elements", paras: true, family: "elements", aspect: "loss", part: 1, run1: func(fr []text.TextFragment) view {
 		r := layout.NewAnalyzer().Analyze(fr, pageW, pageH)
-		return elemView(r.Elements, r.Paragraphs.Paragraphs)
+		var ps []layout.Paragraph
+		if r.Paragraphs != nil {
+			ps = r.Paragraphs.Paragraphs
+		}
+		return elemView(r.Elements, ps)
 	}},
 	{name: "Analyzer.Elements.dup", paras: true, family: "elements", aspect: "dup", part: 1, run1: func(fr []text.TextFragment) view {
 		r := layout.NewAnalyzer().Analyze(fr, pageW, pageH)
-		return elemView(r.Elements, r.Paragraphs.Paragraphs)
+		var ps []layout.Paragraph
+		if r.Paragraphs != nil {
+			ps = r.Paragraphs.Paragraphs
+		}
+		return elemView(r.Elements, ps)
 	}},
 	{name: "Analyzer.QuickElements", paras: true, family: "column+line", part: 1, run1: func(fr []text.TextFragment) view {
 		r := layout.NewAnalyzer().QuickAnalyze(fr, pageW, pageH)
